@@ -118,7 +118,8 @@ func (g *G) value(k Kind, role, def string) string {
 
 // ---- value alphabets (choice 0 is the role's own default) ------------------------------------------
 
-var hardIdents = []string{"b", "_x1", "my db", `sel"ect`, "select", "1h", "a.b", "é👍", "new\nline", "Time", `back\slash`, "true", "OR", "time"}
+// (the last three: the longest keyword, one of the shortest, and the longest in upper case)
+var hardIdents = []string{"b", "_x1", "my db", `sel"ect`, "select", "1h", "a.b", "é👍", "new\nline", "Time", `back\slash`, "true", "OR", "time", "subscriptions", "on", "SUBSCRIPTIONS"}
 var hardStrings = []string{"", "it's", `a\b`, "x\ny", "é", "; DROP DATABASE d --", `"`, "/* c */"}
 
 func (g *G) ident(role, def string) string {
@@ -148,7 +149,6 @@ func (g *G) pick(n int) int {
 	}
 	return g.C.ChooseC(CValue, n)
 }
-
 
 // count emits an INTEGER for LIMIT-like slots (non-negative int).
 func (g *G) count(role string, def string) int {
